@@ -89,6 +89,8 @@ type thread struct {
 	spinObj   *SyncObj
 	spinVer   int
 	spinCount int
+	spinOps   int
+	ops       int // hooked operations performed (memory accesses and sync points)
 }
 
 type access struct {
@@ -116,23 +118,24 @@ type Point struct {
 }
 
 type sched struct {
-	threads []*thread
-	cur     *thread
-	yield   chan int
-	prefix  []int
-	points  []Point
-	preempt int
-	shadow  map[uintptr]*shadow
-	pinned  map[unsafe.Pointer]struct{}
-	objs    map[unsafe.Pointer]*SyncObj
-	races   []string
-	raceSet map[string]bool
-	failure string
-	steps   int
-	maxStep int
-	nsync   int
-	nmem    int
-	sig     []byte // schedule signature: sequence of running thread ids at decision points
+	threads    []*thread
+	cur        *thread
+	yield      chan int
+	prefix     []int
+	points     []Point
+	preempt    int
+	shadow     map[uintptr]*shadow
+	pinned     map[unsafe.Pointer]struct{}
+	objs       map[unsafe.Pointer]*SyncObj
+	inSpinEval bool
+	races      []string
+	raceSet    map[string]bool
+	failure    string
+	steps      int
+	maxStep    int
+	nsync      int
+	nmem       int
+	sig        []byte // schedule signature: sequence of running thread ids at decision points
 }
 
 // S is the active scheduler; nil means "not exploring" (hooks pass through).
@@ -382,27 +385,52 @@ func Publish(o *SyncObj) {
 	o.ver++
 }
 
-// SpinCheck is called after an atomic load of o. A goroutine that loads the
-// same atomic variable three times in a row without anybody having stored to
-// it in between is spin-waiting: it is parked until the next store to that
-// variable (waiting is made visible to the scheduler instead of unrolling the
-// loop; if no store can ever come the execution is reported as a deadlock).
+// SpinCheck is called before an atomic load of o. A goroutine that loads the
+// same atomic variable eight times in a row, with no other hooked operation of
+// its own and no store to the variable in between, is taken to be spin-waiting:
+// it is parked until the next store to that variable or until no other
+// goroutine can run (waiting is made visible to the scheduler instead of
+// unrolling the loop). A goroutine that merely checks a flag repeatedly is at
+// worst delayed until the others have run; one that spins on something nobody
+// will ever store runs into the step limit and is reported as a livelock.
 func SpinCheck(o *SyncObj) {
 	if s == nil {
 		return
 	}
-	t := s.cur
-	if t.spinObj == o && t.spinVer == o.ver {
+	sc := s
+	t := sc.cur
+	if t.spinObj == o && t.spinVer == o.ver && t.spinOps == sc.opsOf(t) {
 		t.spinCount++
 	} else {
 		t.spinObj, t.spinVer, t.spinCount = o, o.ver, 1
 	}
-	if t.spinCount >= 3 {
+	if t.spinCount >= 8 {
 		ver := o.ver
-		blockUntil("atomic spin-wait", func() bool { return o.ver != ver })
+		blockUntil("atomic spin-wait", func() bool {
+			if o.ver != ver {
+				return true
+			}
+			if sc.inSpinEval {
+				return false // another spinner asking: I am waiting too
+			}
+			sc.inSpinEval = true
+			defer func() { sc.inSpinEval = false }()
+			for _, u := range sc.threads {
+				if u != t && !u.done && (u.blocked == nil || u.blocked()) {
+					return false
+				}
+			}
+			return true
+		})
 		t.spinCount = 0
 	}
+	// between two back-to-back loads the counter advances by exactly two: the
+	// shadow-memory access of this load and the scheduling point of the next
+	t.spinOps = sc.opsOf(t) + 2
 }
+
+// opsOf is the number of hooked operations t has performed.
+func (sc *sched) opsOf(t *thread) int { return t.ops }
 
 // ObjAt returns the synchronisation object standing for the atomic variable at
 // p in this execution.
@@ -466,6 +494,7 @@ func SyncPoint(what string) {
 	}
 	s.nsync++
 	s.cur.lastCell = 0
+	s.cur.ops++
 	hw := uint64(len(what))
 	for i := 0; i < len(what); i++ {
 		hw = hw*131 + uint64(what[i])
@@ -518,6 +547,7 @@ func memAccess(addr uintptr, size uintptr, kind int, atomic, yield bool) {
 	sc := s
 	t := sc.cur
 	sc.nmem++
+	t.ops++
 	cell := addr &^ 7
 	if yield && (t.lastCell != cell || t.lastKind != kind) {
 		t.lastCell, t.lastKind = cell, kind
